@@ -531,10 +531,28 @@ func (em *emitter) prepareFunctionBodyParameters(fn *ast.Func) {
 
 	// Reserve space for the return parameters and eventually bind them.
 	for _, out := range fn.Type.Result {
-		kind := em.typ(out.Type).Kind()
+		typ := em.typ(out.Type)
+		kind := typ.Kind()
 		reg := em.fb.newRegister(kind)
 		if out.Ident != nil && !isBlankIdentifier(out.Ident) {
 			em.fb.bindVarReg(out.Ident.Name, reg)
+		} else if out.Ident == nil {
+			// An unnamed result has the zero value until a return statement
+			// sets it: the function can return without executing one when a
+			// deferred call recovers a panic. (The named results are set to
+			// zero by the assignments added by the type checker.)
+			switch kindToType(kind) {
+			case intRegister, floatRegister:
+				em.fb.emitMove(true, 0, reg, kind)
+			case stringRegister:
+				em.fb.emitMove(true, int8(em.fb.makeStringValue("")), reg, kind)
+			case generalRegister:
+				zero := reflect.Value{}
+				if kind != reflect.Interface {
+					zero = em.types.Zero(typ)
+				}
+				em.fb.emitMove(true, int8(em.fb.makeGeneralValue(zero)), reg, kind)
+			}
 		}
 	}
 
